@@ -38,6 +38,8 @@ func nanosWindow(K int32) []int32 {
 		out = append(out, i)
 	}
 	out = append(out, giga/2-1, giga/2)
+	// the nanos at which a +-9223372036 s duration crosses the time.Duration range
+	out = append(out, 854775806, 854775807, 854775808, 854775809)
 	for i := giga - 1 - K; i <= giga-1; i++ {
 		out = append(out, i)
 	}
@@ -113,7 +115,7 @@ func checkAdd(h *hz.H, ts int64, tn int32, ds int64, dn int32) bool {
 			return false
 		}
 	}
-	if ds > -maxStd && ds < maxStd {
+	if fitsStd(ds, dn) {
 		std := time.Duration(ds*giga + int64(dn))
 		var r2 *tspb.Timestamp
 		if p := hz.Catch(func() { r2 = timepb.AddStd(t, std) }); p != nil {
@@ -126,6 +128,19 @@ func checkAdd(h *hz.H, ts int64, tn int32, ds int64, dn int32) bool {
 		}
 	}
 	return true
+}
+
+// fitsStd reports whether the duration is exactly representable as a time.Duration.
+func fitsStd(ds int64, dn int32) bool {
+	switch {
+	case ds > -maxStd && ds < maxStd:
+		return true
+	case ds == maxStd:
+		return int64(dn) <= math.MaxInt64-maxStd*giga
+	case ds == -maxStd:
+		return int64(dn) >= math.MinInt64+maxStd*giga
+	}
+	return false
 }
 
 // exactBig computes t+d with math/big, as an independent cross-check of the int64 reference above.
@@ -232,7 +247,7 @@ func runC17(h *hz.H) {
 	}
 	h.Rep.Bounds["nanos_window_K"] = K
 	tsSecs := []int64{minTS, minTS + 1, -2, -1, 0, 1, 2, maxTS - 1, maxTS}
-	dSecs := []int64{-maxDS, -maxStd - 1, -2, -1, 0, 1, 2, maxStd + 1, maxDS}
+	dSecs := []int64{-maxDS, -maxStd - 1, -maxStd, -maxStd + 1, -2, -1, 0, 1, 2, maxStd - 1, maxStd, maxStd + 1, maxDS}
 	nw := nanosWindow(K)
 	type dur struct {
 		s int64
